@@ -607,7 +607,8 @@ theorem invB_waitReturn (c : Cfg) (w : WF c) (st st' : StB) (s : Nat)
               exact hinv.rxSub s' D' hr }
   · cases h
 
-/-- the run of `s` leaves its main loop (critical failure, success, expiry or cancellation) -/
+/-- the run of `s` leaves its main loop (critical failure, success, expiry, cancellation, or failure of the
+    orchestration itself) -/
 theorem invB_exitLoop (c : Cfg) (w : WF c) (st : StB) (s : Nat) (x : Exit) (nb' : Nat → Nat) (ca' : Nat → Bool)
     (a' : StA) (hA : InvA c st.a) (hinv : InvB c st) (hloop : st.pcB s = .loop)
     (hnb : ∀ s', s' ≠ s → nb' s' = st.nbDone s')
@@ -884,6 +885,23 @@ theorem invB_react (c : Cfg) (w : WF c) (st st' : StB) (s : Nat)
                     intro s' D'
                     have := hinv.rxSub s' D'
                     inv_close }
+  · cases h
+
+/-- the orchestration of `s` fails instead of reacting: as far as the invariant goes, one more way to leave the loop -/
+theorem invB_orchFail (c : Cfg) (w : WF c) (st st' : StB) (s : Nat)
+    (hA : InvA c st.a) (hinv : InvB c st) (h : stepB c st (.orchFail s) = some st') : InvB c st' := by
+  simp only [stepB] at h
+  split at h
+  · rename_i D hloop hD
+    split at h
+    · cases h
+    · split at h
+      · cases h
+      · rename_i a' ha
+        cases h
+        obtain ⟨_, ⟨hsn, hss, hpcs, hK⟩, hph, hcreq, hdeliv, hpc, hrx, hnow⟩ := stepA_react_leave ha
+        exact invB_exitLoop c w st s .crashed st.nbDone st.carrived a' hA hinv hloop (fun _ _ => rfl)
+          (fun _ h => Or.inl h) (fun _ h => h) (by intro h; cases h) hph hcreq hdeliv hpc hrx hnow
   · cases h
 
 theorem invB_timeoutFire (c : Cfg) (w : WF c) (st st' : StB) (s : Nat)
@@ -1680,6 +1698,7 @@ theorem verdict_none {c : Cfg} {st : StB} {s : Nat} {x : Exit} {pick : Nat}
   · simp only at h
     split at h <;> cases h
   · rfl
+  · cases h
 
 /-- `co_run` of `s` ends -/
 theorem invB_finish (c : Cfg) (w : WF c) (st : StB) (s : Nat) (x : Exit) (pick : Nat) (bc' : Nat → Bc)
@@ -2817,6 +2836,7 @@ theorem invB_step (c : Cfg) (hwf : c.wf = true) (st st' : StB) (e : EvB)
   | cancelArrive s => exact invB_cancelArrive c w st st' s hA hinv h
   | waitReturn s => exact invB_waitReturn c w st st' s hA hinv h
   | react s => exact invB_react c w st st' s hA hinv h
+  | orchFail s => exact invB_orchFail c w st st' s hA hinv h
   | timeoutFire s => exact invB_timeoutFire c w st st' s hA hinv h
   | tidyReturn s pick => exact invB_tidyReturn c w st st' s pick hA hinv h
   | hStep j => exact invB_hStep c w st st' j hA hinv h
